@@ -142,7 +142,7 @@ fn client_source(g: &mut Rng, names: &[String], via: &str) -> String {
     let objs: Vec<String> = names.iter().filter(|n| matches!(n.as_str(), "visa" | "visb" | "visc" | "visd" | "guarded" | "checked" | "nested" | "comp" | "viasuper" | "halfbad" | "outer" | "selfdep" | "plusdeep" | "plussub" | "plusobj")).cloned().collect();
     let vis: Vec<String> = objs.iter().filter(|n| n.starts_with("vis")).cloned().collect();
     let fo = |g: &mut Rng| if !vis.is_empty() && g.chance(3, 5) { g.pick(&vis).clone() } else if objs.is_empty() { "nested".to_string() } else { g.pick(&objs).clone() };
-    match g.below(52) {
+    match g.below(56) {
         0 => format!("{l}.{}", f(g)),
         1 => format!("local l = {l}; [l.{}, l.{}]", f(g), f(g)),
         2 => format!("local l = {l}; {{ a: l.{}, b: l.{} }}", f(g), f(g)),
@@ -211,6 +211,11 @@ fn client_source(g: &mut Rng, names: &[String], via: &str) -> String {
             let prog = Gen::new(g, cfg).with_vars(vars).program(&want).print();
             format!("local l = {l};\nlocal {};\n{prog}", binds.join(", "))
         }
+        // external variables that some histories register only AFTER earlier requests have run
+        51 => "std.extVar(\"A1\")".to_string(),
+        52 => format!("local l = {l}; [std.extVar(\"z9\"), l.shallow]"),
+        53 => "local e = std.extVar(\"M5\"); if std.isObject(e) then e.v else e".to_string(),
+        54 => "[std.extVar(\"z9\"), std.extVar(\"A1\")]".to_string(),
         33 => format!("local l = {l}; [std.objectRemoveKey(l.{a}, \"a\"), std.mergePatch(l.{b}, {{ a: null, k: null }}), l.{a}]", a = if g.chance(1, 2) { "selfdep".to_string() } else { fo(g) }, b = fo(g)),
         34 => format!("local l = {l}; [l.{a} {{ a: 10 }}, l.{b} + {{ a:: 5, xs+: [9] }}, std.objectRemoveKey(l.{a}, \"xs\")]", a = fo(g), b = fo(g)),
         35 => format!("local l = {l}; local o = l.{}; [std.length(o), std.objectFields(o), o]", fo(g)),
@@ -296,6 +301,11 @@ pub fn gen_history_mode(seed: u64, with_faults: bool, session: bool) -> History 
                 srcs.push(s.to_string());
             }
         }
+        // a real file that never loads, next to files a later VIRTUAL source must not pick up by a relative import
+        files.insert("a/bad.jsonnet".into(), b"{ who: \"a-bad\", u: import \"util.libsonnet\", oops: }".to_vec());
+        if g.chance(1, 2) {
+            srcs.push("a/bad.jsonnet".to_string());
+        }
         for s in ["a/main.jsonnet", "b/main.jsonnet", "c/main.jsonnet", "d/main.jsonnet"] {
             if g.chance(2, 3) {
                 srcs.push(s.to_string());
@@ -376,7 +386,8 @@ pub fn gen_history_mode(seed: u64, with_faults: bool, session: bool) -> History 
             10 | 11 => {
                 // top-level arguments: none, a string, or CODE - several different texts are loaded under the same
                 // virtual name <tla:k> during one history, some of them failing with a diagnostic that quotes the source
-                let tla = match o.below(8) {
+                let tla = match o.below(9) {
+                    7 => vec![("k".to_string(), true, "import \"util.libsonnet\"".to_string())],
                     0 | 1 => vec![],
                     2 | 3 => vec![("k".to_string(), false, "shallow".to_string())],
                     4 => vec![("k".to_string(), true, "\"sha\" + \"llow\"".to_string())],
@@ -451,6 +462,9 @@ pub fn gen_history_mode(seed: u64, with_faults: bool, session: bool) -> History 
             "{ a: 1, b: self.a + 1 }",
             "assert 1 == 2 : \"tla assert\"; 5",
             "std.foldl(function(a, b) a + b, [1, 2, \"three\"], 0)",
+            // virtual sources have no directory of their own: only the search path applies
+            "import \"util.libsonnet\"",
+            "[importstr \"util.libsonnet\", import \"lib/sub.libsonnet\"]",
         ];
         let n = 2 + o.usize_below(3);
         let first_free = if merge_family { 4 } else { 1 };
@@ -484,6 +498,33 @@ pub fn gen_history_mode(seed: u64, with_faults: bool, session: bool) -> History 
             ops.insert(at.min(ops.len()), Op::plain(r));
             at += 1;
         }
+    }
+    if o.chance(1, 4) {
+        // external variables registered in mid-history, in an order that is not alphabetical; requests before and after
+        // look them up (also ones that never get registered)
+        let mut vars = vec![
+            ("z9", "\"zed\" + \"-nine\""),
+            ("M5", "{ v: (import \"lib.libsonnet\").shallow, w: [1, 2] }"),
+            ("A1", "local x = 2; x * 21"),
+            ("K0", "error \"ext K0 says no\""),
+        ];
+        o.shuffle(&mut vars);
+        let lead = ops.iter().take_while(|op| matches!(op.req, Req::Load(_))).count();
+        let n = 1 + o.usize_below(vars.len());
+        for (name, code) in vars.into_iter().take(n) {
+            let at = lead + o.usize_below(ops.len() - lead + 1);
+            ops.insert(at, Op::plain(Req::AddExtVar { name: name.to_string(), code: code.to_string() }));
+        }
+        // make sure something looks the variables up late as well
+        files.insert("x_ext.jsonnet".into(), b"[std.extVar(\"A1\"), std.extVar(\"z9\"), std.extVar(\"M5\").v]".to_vec());
+        files.insert("x_ext2.jsonnet".into(), b"std.extVar(\"A1\") + 1".to_vec());
+        let at = lead + o.usize_below(ops.len() - lead + 1);
+        ops.insert(at, Op::plain(Req::Load("x_ext2.jsonnet".into())));
+        ops.insert(at + 1, Op::plain(Req::Eval { thunk: crate::reqs::LAST_THUNK, keep: false }));
+        ops.push(Op::plain(Req::Load("x_ext.jsonnet".into())));
+        ops.push(Op::plain(Req::Eval { thunk: crate::reqs::LAST_THUNK, keep: true }));
+        ops.push(Op::plain(Req::Load("x_ext2.jsonnet".into())));
+        ops.push(Op::plain(Req::Eval { thunk: crate::reqs::LAST_THUNK, keep: false }));
     }
     if intern_family {
         // appended in this order (LAST_THUNK needs no handle arithmetic); other requests may follow
@@ -695,6 +736,12 @@ fn fresh_outcome(h: &History, resolved: &[Resolved], r: usize, limit: usize) -> 
     let mut ctx = Ctx::new(&arena, &h.world);
     // no collections, but the step budget applies to reference runs as well
     ctx.install_sched(Sched::new(SchedMode::Never, AuditMode::None, Rng::from_seed(0)));
+    // external variables registered before this request are part of the state it runs against
+    for (k, op) in h.ops.iter().enumerate().take(r) {
+        if let (Req::AddExtVar { name, code }, false) = (&op.req, resolved[k].noop) {
+            ctx.add_ext(name, true, code);
+        }
+    }
     let mut f = Fresh { ctx, h, resolved, thunks: HashMap::new(), values: HashMap::new() };
     // prerequisites are built with ample head-room, the request itself under `limit`
     let res = &resolved[r];
